@@ -22,7 +22,7 @@ RULE = ("multi-folder archives (2..4 folders x 1..3 members; py7zr append sessio
         "Threads: a harness scheduler parks every worker at its output writes (WriterFactory.create / Py7zIO.write) and releases one at a time; the schedule tree is "
         "explored depth-first by replay while small, then by seeded random walks; every run's factory products must equal the sequential (stream-opened) output. "
         "Processes (mp=True): disk extraction repeated, tree must equal the sequential tree. Independent objects: 8 threads extracting the same file concurrently. "
-        "Errors: one folder damaged at each position x {threads, processes, sequential} must raise; a failing sink (factory write raising) must raise. "
+        "Errors: one folder damaged at each position x {threads, processes, sequential} must raise, and raise the class of error the sequential path raises for that image; a failing sink (factory write raising) must raise. "
         "Cell = (folders, members, mode, distinct trace).")
 ASSUMPTIONS = ["gates are placed at the client boundary (caller-supplied factory/IO objects); py7zr code is not modified",
                "mp=True with a WriterFactory is not compared (children cannot write into the parent's objects; nothing promises it)"]
@@ -282,7 +282,8 @@ def run_case(case):
             dp = os.path.join(d, "dmg%d.7z" % fi)
             with open(dp, "wb") as f:
                 f.write(img)
-            for mode in ("threads", "processes", "sequential", "threads-factory"):
+            raised = {}
+            for mode in ("sequential", "threads", "processes", "threads-factory"):
                 obs["damaged_runs"] += 1
                 try:
                     got = None
@@ -311,8 +312,17 @@ def run_case(case):
                         viol.append({"key": "worker-error-lost/%s" % mode, "what": "folder %d of %d damaged: extractall (%s) returned normally with different content" % (fi, len(lay.streams.pack_sizes), mode)})
                     else:
                         obs["damage_harmless"] = obs.get("damage_harmless", 0) + 1
-                except Exception:
+                except Exception as e:
                     obs["damaged_runs_raised"] = obs.get("damaged_runs_raised", 0) + 1
+                    raised[mode] = e
+            # the error that reaches the caller is the worker's error: the same class the sequential path raises for this very image
+            if "sequential" in raised:
+                want_cls = type(raised["sequential"])
+                for mode, e in raised.items():
+                    obs["error_classes_compared"] = obs.get("error_classes_compared", 0) + 1
+                    if type(e) is not want_cls and not (isinstance(e, want_cls) or isinstance(raised["sequential"], type(e))):
+                        viol.append({"key": "worker-error-replaced/%s" % mode, "what": "folder %d of %d damaged: the sequential path raises %s, extractall (%s) raises %s instead of the worker's error" % (
+                            fi, len(lay.streams.pack_sizes), pz.exc_sig(raised["sequential"]), mode, pz.exc_sig(e))})
             pos += z_
         # unwritable output: a sink that fails for one member
         victim = names[-1]
